@@ -116,4 +116,17 @@ def infoOk (c : InfoInst) : Bool :=
       allGe (c.advD - 1) (c.M.map (encode c.G)) 0 false (c.advD - 2)
    else allGe c.advD (c.M.map (encode c.G)) 0 false (c.advD - 1))
 
+/-- a BCH instance: generator matrix, a right inverse of it, the field GF(2^m) = GF(2)[X]/(P), the generator polynomial and the
+design distance the object advertises (`Proofs/BCHBound.lean`: `bchOk`, `bch_min_distance`) -/
+structure BchInst where
+  name : String
+  n : Nat
+  k : Nat
+  G : List Nat
+  R : List Nat
+  m : Nat
+  P : Nat
+  gpoly : Nat
+  delta : Nat
+
 end Kaira.Dist
